@@ -105,7 +105,21 @@ fn check(case: &Case, ev: &mut CaseEv) -> CheckResult {
     let prob = matches!(case.obj, ObjK::CE | ObjK::BCE | ObjK::KL);
 
     // data
-    let xs: Vec<Tensor> = (0..case.n).map(|i| tens::build(&spec.input, &payload(case.dseed.wrapping_add(i as u32 * 7919), 1, n_in, 1.0))).collect();
+    // input classes: independent O(1) inputs; a fine sweep (consecutive inputs a few units in the last place
+    // apart in every component); independent inputs of magnitude 1e-6 (all closer than 1e-5 to each other)
+    let xclass = (case.dseed >> 7) % 8;
+    let xs: Vec<Tensor> = match xclass {
+        0 => {
+            let base = payload(case.dseed, 1, n_in, 1.0);
+            ev.class("inputs: fine sweep");
+            (0..case.n).map(|i| tens::build(&spec.input, &base.iter().enumerate().map(|(j, b)| b + 2.5e-7 * (i as f32) * if j % 2 == 0 { 1.0 } else { -1.0 }).collect::<Vec<f32>>())).collect()
+        }
+        1 => {
+            ev.class("inputs: magnitude 1e-6");
+            (0..case.n).map(|i| tens::build(&spec.input, &payload(case.dseed.wrapping_add(i as u32 * 7919), 1, n_in, 1e-6))).collect()
+        }
+        _ => (0..case.n).map(|i| tens::build(&spec.input, &payload(case.dseed.wrapping_add(i as u32 * 7919), 1, n_in, 1.0))).collect(),
+    };
     let preds: Vec<Tensor> = {
         let r = catch(|| xs.iter().map(|x| net.predict(x)).collect::<Vec<Tensor>>());
         r.map_err(|p| Fail::new(format!("predict panicked: {p}")))?
@@ -124,7 +138,16 @@ fn check(case: &Case, ev: &mut CaseEv) -> CheckResult {
             let tv: Vec<f32> = if softmax_now {
                 let am = pf.iter().enumerate().fold((0usize, f32::MIN), |a, (i, v)| if *v > a.1 { (i, *v) } else { a }).0;
                 let hot = if m.below(2) == 0 { am } else { m.below(n_out as u64) as usize };
-                (0..n_out).map(|i| if i == hot { 1.0 } else { 0.0 }).collect()
+                if m.below(2) == 0 {
+                    (0..n_out).map(|i| if i == hot { 1.0 } else { 0.0 }).collect()
+                } else {
+                    // soft target distribution with a unique peak at `hot` (the peak is often below 0.5)
+                    let raw: Vec<f32> = (0..n_out).map(|_| 0.1 + 0.9 * m.unit() as f32).collect();
+                    let top = raw.iter().cloned().fold(0.0f32, f32::max) + 0.05 + 0.3 * m.unit() as f32;
+                    let raw: Vec<f32> = (0..n_out).map(|i| if i == hot { top } else { raw[i] }).collect();
+                    let s: f32 = raw.iter().sum();
+                    raw.iter().map(|v| v / s).collect()
+                }
             } else {
                 pf.iter()
                     .map(|v| {
@@ -238,7 +261,7 @@ impl Prop for C12 {
         Some(3)
     }
     fn rule(&self) -> String {
-        "tape-decoded network (1-2 generated layers of any kind incl. feedback blocks + a final dense layer with soft-max or another activation; in one case of four the output activation is changed afterwards with set_activation; in one case of three up to three skip connections, chains included, are added), objective of 7, tolerance in {0, 1e-6, 1e-3, 0.1, 1, 1e30}, N in {1, 2, 63, 64, 65, 127, 128, 129, 200} or random 1..300; targets derived from the predictions so that components lie exactly on / at the tolerance / inside / outside it and one-hot targets agree or disagree with the arg-max. Oracle from public pieces: loss = mean of objective(predict(x), t) (order-free tolerance), accuracy interval by the stated rule (components at exactly the tolerance and arg-max ties may count either way), predict_batch[i] == predict(x_i) bitwise in order, predict == last activation of forward. Non-trivial: N > 64, N mod 64 != 0 and both scoring outcomes present. Distinct = (architecture, objective, tolerance, N).".into()
+        "tape-decoded network (1-2 generated layers of any kind incl. feedback blocks + a final dense layer with soft-max or another activation; in one case of four the output activation is changed afterwards with set_activation; in one case of three up to three skip connections, chains included, are added), objective of 7, tolerance in {0, 1e-6, 1e-3, 0.1, 1, 1e30}, N in {1, 2, 63, 64, 65, 127, 128, 129, 200} or random 1..300; targets derived from the predictions so that components lie exactly on / at the tolerance / inside / outside it and one-hot or soft (peak often below 0.5) targets agree or disagree with the arg-max; inputs independent O(1), or (1/8) a fine sweep with consecutive inputs a few ulp apart, or (1/8) of magnitude 1e-6. Oracle from public pieces: loss = mean of objective(predict(x), t) (order-free tolerance), accuracy interval by the stated rule (components at exactly the tolerance and arg-max ties may count either way), predict_batch[i] == predict(x_i) bitwise in order, predict == last activation of forward. Non-trivial: N > 64, N mod 64 != 0 and both scoring outcomes present. Distinct = (architecture, objective, tolerance, N).".into()
     }
     fn run_case(&self, tape: &[u32], ev: &mut CaseEv) -> CheckResult {
         check(&decode(tape), ev)
